@@ -119,6 +119,7 @@ static void *gaia_lookup_thread(void *arg)
 static int gaia_post_request(struct GAIAContext *ctx, struct gaicb *list[], int nitems, struct sigevent *sevp)
 {
 	struct GAIARequest *rq;
+	int i;
 
 	rq = malloc(RQ_SIZE(nitems));
 	if (!rq)
@@ -131,7 +132,11 @@ static int gaia_post_request(struct GAIAContext *ctx, struct gaicb *list[], int 
 		rq->sev = *sevp;
 	else
 		rq->sev.sigev_notify = SIGEV_NONE;
-	memcpy(rq->list, list, sizeof(struct gaicb *));
+	memcpy(rq->list, list, nitems * sizeof(struct gaicb *));
+
+	/* mark as pending before the resolver thread can see the request */
+	for (i = 0; i < nitems; i++)
+		list[i]->_state = EAI_INPROGRESS;
 
 	gaia_lock_reqs(ctx);
 	list_append(&ctx->req_list, &rq->node);
@@ -178,7 +183,9 @@ failed:
 
 int getaddrinfo_a(int mode, struct gaicb *list[], int nitems, struct sigevent *sevp)
 {
+	static pthread_mutex_t ctx_lock = PTHREAD_MUTEX_INITIALIZER;
 	static struct GAIAContext *ctx;
+	struct GAIAContext *cur;
 
 	if (nitems <= 0)
 		return 0;
@@ -192,12 +199,15 @@ int getaddrinfo_a(int mode, struct gaicb *list[], int nitems, struct sigevent *s
 		gaia_lookup(pthread_self(), list, nitems, sevp);
 		return 0;
 	} else if (mode == GAI_NOWAIT) {
-		if (!ctx) {
+		/* first callers may arrive from several threads at once */
+		pthread_mutex_lock(&ctx_lock);
+		if (!ctx)
 			ctx = gaia_create_context();
-			if (!ctx)
-				return EAI_MEMORY;
-		}
-		return gaia_post_request(ctx, list, nitems, sevp);
+		cur = ctx;
+		pthread_mutex_unlock(&ctx_lock);
+		if (!cur)
+			return EAI_MEMORY;
+		return gaia_post_request(cur, list, nitems, sevp);
 	}
 einval:
 	errno = EINVAL;
